@@ -145,6 +145,8 @@ func digitPrefixHelper(fn *ssa.Function) string {
 			}
 		case *ssa.Lookup:
 			return x.X == ssa.Value(s)
+		case *ssa.Index:
+			return x.X == ssa.Value(s)
 		}
 		return false
 	}
@@ -486,6 +488,17 @@ func zipSegComparators(p *Prog, e *Eco) []*ssa.Function {
 			case *ssa.UnOp:
 				if ia, ok := x.X.(*ssa.IndexAddr); ok && x.Op == token.MUL {
 					return isStringSlice(ia.X.Type())
+				}
+			case *ssa.Extract:
+				return walk(x.Tuple)
+			case *ssa.Call:
+				// a read helper: segmentAt(list, i) / partOrZero(list, i)
+				if g := x.Call.StaticCallee(); g != nil && p.IsRepoFn(g) {
+					for _, a := range x.Call.Args {
+						if isStringSlice(a.Type()) {
+							return true
+						}
+					}
 				}
 			}
 			return false
